@@ -1,6 +1,11 @@
 use self::expression::expression;
 use self::statement::outer_statement;
+#[cfg(not(sylt_verif))]
 use std::collections::{BTreeMap, HashMap, HashSet};
+#[cfg(sylt_verif)]
+use std::collections::BTreeMap;
+#[cfg(sylt_verif)]
+use sylt_common::verif_hash::{HashMap, HashSet};
 use std::fmt::{Debug, Display};
 use std::path::{Path, PathBuf};
 use sylt_common::error::Error;
